@@ -2,6 +2,7 @@ package main
 
 import (
 	"fmt"
+	"reflect"
 	"sort"
 	"strings"
 
@@ -11,47 +12,70 @@ import (
 
 // C16 wire input (mirror of coq/theories/C16_Wire.v): a short program.
 //
-//	kind 0:  0 pre spare <es> tpre tspare <et>  [fn x y]*     slices
-//	kind 1:  1 <m0> <m1> <ks>                   [fn c a]*     maps
+//	pre spare <es> tpre tspare <et> <m0> <m1> <L> <C>  [fn x y]*
 //
-// kind 0: array0 = pre sentinels ++ es ++ spare sentinels, s = array0[pre:pre+n:pre+n+spare];
-// array1 / t likewise.  Every call gets the same s and t.
+// array0 = pre sentinels ++ es ++ spare sentinels, s = array0[pre:pre+n:pre+n+spare]; array1 / t likewise;
+// map0 = m0, map1 = m1 (flat k v k v ...).  lists = the caller's [][]int: a backing array
+// [sentinel, decode(L)..., sentinel] re-sliced to [1:1+len(L):2+len(L)], where code 0 = s, 1 = t,
+// c >= 2 = t[:(7c) mod (len(t)+1)]; coll = the caller's []map[int]int likewise from C (0 = map0, 1 = map1);
+// coll2 = [{0:map0, 1:map1}, {2:map1}] inside [sentinel, .., .., sentinel].  Every call gets the same
+// s, t, map0, map1, lists, coll, coll2.
+// p = c14VPred(x, y), f = c14VFun(x), kvp = c14KVPred(x, y), kf = c14KFun(x), mp = c14MPred(x, y).   (* = in place)
 //
-//	 1 Merge(s,t)      2 Merge(s,[x])    3 Merge(s,s)       4 Filter(s,p)      5 Reject(s,p)*     6 Reverse(s)*
-//	 7 Drop(s,x)       8 Chunk(s,x)      9 Map(s,f)        10 Unique(s)       11 Without(s,t...) 12 DropWhile(s,p)
-//	13 DropRightWhile 14 Partition(s,p) 15 Difference(s,t) 16 Intersection(s,t) 17 ToSlice(s...) 18 UniqueBy(s,f)
-//	19 heap.FromSlice(s,cmp)*  20 heap.Sort(s,cmp)*   21 Merge(t,s)   22 Difference(t,s)          (* = in place)
-//	30 x: helpers returning a scalar (c16Scalars)      40 x: other helpers returning slices/maps (c16Others)
+//	 1 Merge(s,t)       2 Merge(s,[x])      3 Merge(s,s)        4 Filter(s,p)        5 Reject(s,p)*      6 Reverse(s)*
+//	 7 Drop(s,x)        8 Chunk(s,x)        9 Map(s,f)         10 Unique(s)         11 Without(s,t...)  12 DropWhile(s,p)
+//	13 DropRightWhile  14 Partition(s,p)   15 Difference(s,t)  16 Intersection(s,t) 17 ToSlice(s...)   18 UniqueBy(s,f)
+//	19 heap.FromSlice(s,cmp)*  20 heap.Sort(s,cmp)*  21 Merge(t,s)  22 Difference(t,s)  23 Shuffle(s)  24 Duplicate(s)
+//	25 DuplicateWithIndex(s)   26 Flatten([s,[t,5]])  27 Union([s,t])  28 IntersectionBy(f,s,t)  29 DifferenceBy(s,t,f)
+//	30 GroupBy(s,f)    31 Zip(s,t)         32 Unzip(s,t)       33 FindAll(s,p)      34 Range(s...)      35 RangeRight(s...)
+//	36 SliceToMap(s,t) 37 Without(t,s...)  38 IntersectionBy(f,t,s)  39 DifferenceBy(t,s,f)  40 Reverse(t)*  41 Reject(t,p)*
+//	42 Intersection(t,s)  43 Zip(s,s)  44 Flatten([s,"x"]) (error)  45 Merge(s)  46 Unzip(s,s)
+//	47 Merge(s, x times t)  48 Intersection(s, x times t)  49 Zip(x times s)
+//	70 Merge(s, lists[x:y]...)  71 Intersection(lists[x:y]...)  72 IntersectionBy(f4, lists[x:y]...)
+//	73 Zip(lists[x:y]...)  74 Unzip(lists[x:y]...)                  (the spread form: the callee gets the caller's [][]int)
+//	75 Flatten(anys)  76 Union(anys)      anys = the caller's []any{s, []any{t, 5}, t} (inside [sentinel, ..., sentinel])
+//	50 Sum 51 SumBy(f) 52 Mean 53 IndexOf(s,y) 54 LastIndexOf(s,y) 55 ForEach 56 ForEachRight 57 Reduce(+,0) 58 Every(p)
+//	59 Some(p) 60 Contains(s,y) 61 FindIndex(p) 62 FindLastIndex(p) 63 FindMin 64 FindMinBy(f) 65 FindMax 66 FindMaxBy(f)
+//	67 Nth(s,y) 68 Min(s...) 69 Max(s...)
+//	101 Keys(map0) 102 Values 103 Pick(map0,s...) 104 PickBy(kvp) 105 FilterMap(p) 106 Omit(map0,s...)* 107 OmitBy(kvp)*
+//	108 MapValues(f) 109 MapKeys(kf) 110 Invert 111 Find(p) 112 FindKey(p) 113 FindByKey(p) 114 Pluck(coll,y)
+//	115 MapUnique 116 MapEvery(p) 117 MapSome(p) 118 MapContains(y) 119 SliceToMap(s,s) 120 FilterMapCollection(coll,p)
+//	121 Filter2DMapCollection(mp) 122 PartitionMap(coll,mp) 123 MapCollection(f) 124 FindMinByKey(coll,y)
+//	125 FindMaxByKey(coll,y) 126 Pick(map1,t...) 127 Omit(map1,t...)*
 //
-// 1..22 are modelled at memory level (C16_Model.v); 30/40 are harness_only: the
-// model's claim for them is the frame alone and the value of their result is
-// taken from the observation.
+// Every code is run by the model through its memory-level transcription (C16_Model.v).  For 23 and
+// 109/110/112/113/115 Go leaves the VALUE of the result open (random numbers, map iteration order): the model
+// takes the value of that result from the observation and keeps status and memory effects of its own;
+// 24/101/102/123 are compared sorted.
 //
-// kind 1: map0 = m0, map1 = m1, ks a key list; fn = the C14 helper codes; the
-// list-of-maps helpers get [map0, map1, map0], Filter2DMapCollection gets
-// [{0:map0, 1:map1}, {2:map1}].
-//
-// Observation per call: status (0 | 2 = panic), the result (enc_zss, when ok),
-// both complete backing arrays (maps: sorted by key) after the call, then every
-// earlier result re-read.
-var c16Scalars = []string{"Sum", "SumBy", "Mean", "IndexOf", "LastIndexOf", "ForEach", "ForEachRight", "Reduce", "Every",
-	"Some", "Contains", "FindIndex", "FindLastIndex", "FindMin", "FindMinBy", "FindMax", "FindMaxBy", "Nth", "Min", "Max"}
-var c16Others = []string{"Shuffle", "Duplicate", "DuplicateWithIndex", "Flatten", "Union", "IntersectionBy", "DifferenceBy",
-	"GroupBy", "Zip", "Unzip", "FindAll", "Range", "RangeRight", "SliceToMap", "Pick(keys=s)", "Omit(keys=s)"}
-var c16Names0 = map[int]string{1: "Merge(s,t)", 2: "Merge(s,[x])", 3: "Merge(s,s)", 4: "Filter", 5: "Reject", 6: "Reverse",
+// Observation per call: status (0 | 2 = panic), the result (enc_zss, when ok), both complete backing arrays,
+// both maps (sorted by key), what every cell of the complete outer arrays of lists / coll / coll2 / anys shows
+// (each slice with its length, each map with its entries), all after the call; then every earlier result re-read.
+var c16Names = map[int]string{1: "Merge(s,t)", 2: "Merge(s,[x])", 3: "Merge(s,s)", 4: "Filter", 5: "Reject", 6: "Reverse",
 	7: "Drop", 8: "Chunk", 9: "Map", 10: "Unique", 11: "Without(s,t...)", 12: "DropWhile", 13: "DropRightWhile",
 	14: "Partition", 15: "Difference(s,t)", 16: "Intersection(s,t)", 17: "ToSlice(s...)", 18: "UniqueBy",
-	19: "heap.FromSlice", 20: "heap.Sort", 21: "Merge(t,s)", 22: "Difference(t,s)"}
+	19: "heap.FromSlice", 20: "heap.Sort", 21: "Merge(t,s)", 22: "Difference(t,s)", 23: "Shuffle", 24: "Duplicate",
+	25: "DuplicateWithIndex", 26: "Flatten([s,[t,5]])", 27: "Union([s,t])", 28: "IntersectionBy(f,s,t)", 29: "DifferenceBy(s,t,f)",
+	30: "GroupBy", 31: "Zip(s,t)", 32: "Unzip(s,t)", 33: "FindAll", 34: "Range(s...)", 35: "RangeRight(s...)",
+	36: "SliceToMap(s,t)", 37: "Without(t,s...)", 38: "IntersectionBy(f,t,s)", 39: "DifferenceBy(t,s,f)", 40: "Reverse(t)",
+	41: "Reject(t)", 42: "Intersection(t,s)", 43: "Zip(s,s)", 44: "Flatten([s,bad])", 45: "Merge(s)", 46: "Unzip(s,s)",
+	47: "Merge(s,x*t)", 48: "Intersection(s,x*t)", 49: "Zip(x*s)",
+	70: "Merge(s,lists[x:y]...)", 71: "Intersection(lists[x:y]...)", 72: "IntersectionBy(f,lists[x:y]...)",
+	73: "Zip(lists[x:y]...)", 74: "Unzip(lists[x:y]...)", 75: "Flatten(anys)", 76: "Union(anys)",
+	50: "Sum", 51: "SumBy", 52: "Mean", 53: "IndexOf", 54: "LastIndexOf", 55: "ForEach", 56: "ForEachRight", 57: "Reduce",
+	58: "Every", 59: "Some", 60: "Contains", 61: "FindIndex", 62: "FindLastIndex", 63: "FindMin", 64: "FindMinBy",
+	65: "FindMax", 66: "FindMaxBy", 67: "Nth", 68: "Min(s...)", 69: "Max(s...)",
+	101: "Keys", 102: "Values", 103: "Pick(map0,s...)", 104: "PickBy", 105: "FilterMap", 106: "Omit(map0,s...)", 107: "OmitBy",
+	108: "MapValues", 109: "MapKeys", 110: "Invert", 111: "Find", 112: "FindKey", 113: "FindByKey", 114: "Pluck",
+	115: "MapUnique", 116: "MapEvery", 117: "MapSome", 118: "MapContains", 119: "SliceToMap(s,s)",
+	120: "FilterMapCollection", 121: "Filter2DMapCollection", 122: "PartitionMap", 123: "MapCollection",
+	124: "FindMinByKey", 125: "FindMaxByKey", 126: "Pick(map1,t...)", 127: "Omit(map1,t...)"}
 
-func c16Name0(fn, x int) string {
-	if n, ok := c16Names0[fn]; ok {
+var c16ValueFree = map[int]bool{23: true, 109: true, 110: true, 112: true, 113: true, 115: true}
+
+func c16Name(fn int) string {
+	if n, ok := c16Names[fn]; ok {
 		return n
-	}
-	if fn == 30 && x >= 0 && x < len(c16Scalars) {
-		return c16Scalars[x]
-	}
-	if fn == 40 && x >= 0 && x < len(c16Others) {
-		return c16Others[x]
 	}
 	return fmt.Sprintf("fn%d", fn)
 }
@@ -85,191 +109,12 @@ func sortedInts(s []int) []int {
 	return c
 }
 
-// c16Call0 performs one call and returns a re-reader of its result (nil result = nothing to re-read).
-func c16Call0(fn, x, y int, s, t []int) reader {
-	p := c14VPred(x, y)
-	switch fn {
-	case 1:
-		r := gogu.Merge(s, t)
-		return func() [][]int { return [][]int{r} }
-	case 2:
-		r := gogu.Merge(s, []int{x})
-		return func() [][]int { return [][]int{r} }
-	case 3:
-		r := gogu.Merge(s, s)
-		return func() [][]int { return [][]int{r} }
-	case 4:
-		r := gogu.Filter(s, p)
-		return func() [][]int { return [][]int{r} }
-	case 5:
-		r := gogu.Reject(s, p)
-		return func() [][]int { return [][]int{r} }
-	case 6:
-		r := gogu.Reverse(s)
-		return func() [][]int { return [][]int{r} }
-	case 7:
-		r := gogu.Drop(s, x)
-		return func() [][]int { return [][]int{r} }
-	case 8:
-		r := gogu.Chunk(s, x)
-		return func() [][]int { return r }
-	case 9:
-		r := gogu.Map(s, c14VFun(x))
-		return func() [][]int { return [][]int{r} }
-	case 10:
-		r := gogu.Unique(s)
-		return func() [][]int { return [][]int{r} }
-	case 11:
-		r := gogu.Without[int, int](s, t...)
-		return func() [][]int { return [][]int{r} }
-	case 12:
-		r := gogu.DropWhile(s, p)
-		return func() [][]int { return [][]int{r} }
-	case 13:
-		r := gogu.DropRightWhile(s, p)
-		return func() [][]int { return [][]int{r} }
-	case 14:
-		r := gogu.Partition(s, p)
-		return func() [][]int { return [][]int{r[0], r[1]} }
-	case 15:
-		r := gogu.Difference(s, t)
-		return func() [][]int { return [][]int{r} }
-	case 16:
-		r := gogu.Intersection(s, t)
-		return func() [][]int { return [][]int{r} }
-	case 17:
-		r := gogu.ToSlice(s...)
-		return func() [][]int { return [][]int{r} }
-	case 18:
-		r := gogu.UniqueBy(s, c14VFun(x))
-		return func() [][]int { return [][]int{r} }
-	case 19:
-		h := heap.FromSlice(s, c16Cmp(x))
-		return func() [][]int { return [][]int{h.GetValues()} }
-	case 20:
-		r := heap.Sort(s, c16Cmp(x))
-		return func() [][]int { return [][]int{r} }
-	case 21:
-		r := gogu.Merge(t, s)
-		return func() [][]int { return [][]int{r} }
-	case 22:
-		r := gogu.Difference(t, s)
-		return func() [][]int { return [][]int{r} }
-	case 30:
-		f := c14VFun(x % 5)
-		switch x {
-		case 0:
-			gogu.Sum(s)
-		case 1:
-			gogu.SumBy(s, f)
-		case 2:
-			gogu.Mean(s)
-		case 3:
-			gogu.IndexOf(s, y)
-		case 4:
-			gogu.LastIndexOf(s, y)
-		case 5:
-			gogu.ForEach(s, func(int) {})
-		case 6:
-			gogu.ForEachRight(s, func(int) {})
-		case 7:
-			gogu.Reduce(s, func(a, b int) int { return a + b }, 0)
-		case 8:
-			gogu.Every(s, c14VPred(2, 0))
-		case 9:
-			gogu.Some(s, c14VPred(2, 0))
-		case 10:
-			gogu.Contains(s, y)
-		case 11:
-			gogu.FindIndex(s, c14VPred(4, y))
-		case 12:
-			gogu.FindLastIndex(s, c14VPred(4, y))
-		case 13:
-			gogu.FindMin(s)
-		case 14:
-			gogu.FindMinBy(s, f)
-		case 15:
-			gogu.FindMax(s)
-		case 16:
-			gogu.FindMaxBy(s, f)
-		case 17:
-			gogu.Nth(s, y)
-		case 18:
-			gogu.Min(s...)
-		case 19:
-			gogu.Max(s...)
-		}
-		return constReader()
-	case 40:
-		f := c14VFun(4) // v % 2
-		switch x {
-		case 0:
-			r := gogu.Shuffle(s)
-			return func() [][]int { return [][]int{r} }
-		case 1:
-			r := gogu.Duplicate(s)
-			sort.Ints(r) // map order: canonicalise once; later reads are of the same array
-			return func() [][]int { return [][]int{r} }
-		case 2:
-			r := gogu.DuplicateWithIndex(s)
-			return func() [][]int { return [][]int{flatOfMap(r)} }
-		case 3:
-			r, _ := gogu.Flatten[int]([]any{s, []any{t, 5}})
-			return func() [][]int { return [][]int{r} }
-		case 4:
-			r, _ := gogu.Union[int]([]any{s, t})
-			return func() [][]int { return [][]int{r} }
-		case 5:
-			r := gogu.IntersectionBy(f, s, t)
-			return func() [][]int { return [][]int{r} }
-		case 6:
-			r := gogu.DifferenceBy(s, t, f)
-			return func() [][]int { return [][]int{r} }
-		case 7:
-			r := gogu.GroupBy(s, f)
-			return func() [][]int {
-				ks := make([]int, 0, len(r))
-				for k := range r {
-					ks = append(ks, k)
-				}
-				sort.Ints(ks)
-				out := [][]int{}
-				for _, k := range ks {
-					out = append(out, append([]int{k}, r[k]...))
-				}
-				return out
-			}
-		case 8:
-			r := gogu.Zip(s, t)
-			return func() [][]int { return r }
-		case 9:
-			r := gogu.Unzip(s, t)
-			return func() [][]int { return r }
-		case 10:
-			r := gogu.FindAll(s, p)
-			return func() [][]int { return [][]int{flatOfMap(r)} }
-		case 11:
-			r, _ := gogu.Range(s...)
-			return func() [][]int { return [][]int{r} }
-		case 12:
-			r, _ := gogu.RangeRight(s...)
-			return func() [][]int { return [][]int{r} }
-		case 13:
-			r := gogu.SliceToMap(s, t)
-			return func() [][]int { return [][]int{flatOfMap(r)} }
-		case 14:
-			r, _ := gogu.Pick(map[int]int{0: 5, 1: 6, 2: 7, 3: 8}, s...)
-			return func() [][]int { return [][]int{flatOfMap(r)} }
-		case 15:
-			r := gogu.Omit(map[int]int{0: 5, 1: 6, 2: 7, 3: 8}, s...)
-			return func() [][]int { return [][]int{flatOfMap(r)} }
-		}
-		return constReader()
-	}
-	return constReader()
+func readerOfSlice(r []int) reader    { return func() [][]int { return [][]int{r} } }
+func readerOfSlices(r [][]int) reader { return func() [][]int { return r } }
+func readerSorted(r []int) reader     { return func() [][]int { return [][]int{sortedInts(r)} } }
+func readerOfMap(m map[int]int) reader {
+	return func() [][]int { return [][]int{flatOfMap(m)} }
 }
-
-func readerOfMap(m map[int]int) reader { return func() [][]int { return [][]int{flatOfMap(m)} } }
 func readerOfMaps(ms ...[]map[int]int) reader {
 	return func() [][]int {
 		out := [][]int{}
@@ -281,58 +126,352 @@ func readerOfMaps(ms ...[]map[int]int) reader {
 		return out
 	}
 }
+func scalarReader(v ...int) reader { return constReader(v) }
+func boolReader(b bool) reader    { return constReader([]int{int(b2i(b))}) }
 
-// c16Call1: one call of a map helper (C14 codes) on map0 / the collections.
-func c16Call1(fn, c, a int, m0 map[int]int, ks []int, coll []map[int]int, coll2 []map[int]map[int]int) reader {
+type c16World struct {
+	s, t   []int
+	m0, m1 map[int]int
+	lb     [][]int // complete backing array of lists (with the two sentinel cells)
+	lists  [][]int
+	cb     []map[int]int
+	coll   []map[int]int
+	c2b    []map[int]map[int]int
+	coll2  []map[int]map[int]int
+	anyb   []any // [sentinel, s, []any{t, 5}, t, sentinel]
+	anys   []any
+}
+
+// 1 len elems = a []int, 2 v = an int, 3 n cells = a []any, 9 = anything else (the sentinel)   (print_A in C16_Wire.v)
+func c16PrintAny(out []int, cells []any) []int {
+	for _, c := range cells {
+		switch v := c.(type) {
+		case []int:
+			out = append(out, 1, len(v))
+			out = append(out, v...)
+		case int:
+			out = append(out, 2, v)
+		case []any:
+			out = append(out, 3, len(v))
+			out = c16PrintAny(out, v)
+		default:
+			out = append(out, 9)
+		}
+	}
+	return out
+}
+func (w *c16World) printA() []int { return c16PrintAny([]int{}, w.anyb) }
+
+// what the cells of the outer arrays show (mirror of print_L / print_C / print_C2 in C16_Wire.v)
+func (w *c16World) printL() []int {
+	out := []int{}
+	for _, e := range w.lb {
+		out = append(out, len(e))
+		out = append(out, e...)
+	}
+	return out
+}
+func c16ShowMap(m map[int]int) []int {
+	f := flatOfMap(m)
+	return append([]int{len(f)}, f...)
+}
+func (w *c16World) printC() []int {
+	out := []int{}
+	for _, m := range w.cb {
+		out = append(out, c16ShowMap(m)...)
+	}
+	return out
+}
+func (w *c16World) printC2() []int {
+	out := []int{}
+	for _, o := range w.c2b {
+		ks := make([]int, 0, len(o))
+		for k := range o {
+			ks = append(ks, k)
+		}
+		sort.Ints(ks)
+		out = append(out, len(ks))
+		for _, k := range ks {
+			out = append(out, k)
+			out = append(out, c16ShowMap(o[k])...)
+		}
+	}
+	return out
+}
+
+func c16NewWorld(s, t []int, m0, m1 map[int]int, L, C []int) *c16World {
+	w := &c16World{s: s, t: t, m0: m0, m1: m1}
+	w.lb = make([][]int, 0, len(L)+2)
+	w.lb = append(w.lb, []int{-4242})
+	for _, c := range L {
+		switch {
+		case c == 0:
+			w.lb = append(w.lb, s)
+		case c == 1:
+			w.lb = append(w.lb, t)
+		default:
+			w.lb = append(w.lb, t[:(7*c)%(len(t)+1)])
+		}
+	}
+	w.lb = append(w.lb, []int{-4242})
+	w.lists = w.lb[1 : 1+len(L) : 2+len(L)]
+	w.cb = make([]map[int]int, 0, len(C)+2)
+	w.cb = append(w.cb, map[int]int{-1: -1})
+	for _, c := range C {
+		if c == 0 {
+			w.cb = append(w.cb, m0)
+		} else {
+			w.cb = append(w.cb, m1)
+		}
+	}
+	w.cb = append(w.cb, map[int]int{-1: -1})
+	w.coll = w.cb[1 : 1+len(C) : 2+len(C)]
+	w.c2b = []map[int]map[int]int{{}, {0: m0, 1: m1}, {2: m1}, {}}
+	w.coll2 = w.c2b[1:3:3]
+	w.anyb = []any{"sentinel", s, []any{t, 5}, t, "sentinel"}
+	w.anys = w.anyb[1:4:5]
+	return w
+}
+
+func c16Times(x int, s []int) [][]int {
+	if x < 0 {
+		x = 0
+	}
+	out := make([][]int, x)
+	for i := range out {
+		out[i] = s
+	}
+	return out
+}
+
+// c16Call performs one call and returns a re-reader of its result.
+func c16Call(fn, x, y int, w *c16World) reader {
+	s, t, m0 := w.s, w.t, w.m0
+	p, f := c14VPred(x, y), c14VFun(x)
 	switch fn {
 	case 1:
-		return constReader(sortedInts(gogu.Keys(m0)))
+		return readerOfSlice(gogu.Merge(s, t))
 	case 2:
-		return constReader(sortedInts(gogu.Values(m0)))
+		return readerOfSlice(gogu.Merge(s, []int{x}))
 	case 3:
-		r, err := gogu.Pick(m0, ks...)
+		return readerOfSlice(gogu.Merge(s, s))
+	case 4:
+		return readerOfSlice(gogu.Filter(s, p))
+	case 5:
+		return readerOfSlice(gogu.Reject(s, p))
+	case 6:
+		return readerOfSlice(gogu.Reverse(s))
+	case 7:
+		return readerOfSlice(gogu.Drop(s, x))
+	case 8:
+		return readerOfSlices(gogu.Chunk(s, x))
+	case 9:
+		return readerOfSlice(gogu.Map(s, f))
+	case 10:
+		return readerOfSlice(gogu.Unique(s))
+	case 11:
+		return readerOfSlice(gogu.Without[int, int](s, t...))
+	case 12:
+		return readerOfSlice(gogu.DropWhile(s, p))
+	case 13:
+		return readerOfSlice(gogu.DropRightWhile(s, p))
+	case 14:
+		r := gogu.Partition(s, p)
+		return func() [][]int { return [][]int{r[0], r[1]} }
+	case 15:
+		return readerOfSlice(gogu.Difference(s, t))
+	case 16:
+		return readerOfSlice(gogu.Intersection(s, t))
+	case 17:
+		return readerOfSlice(gogu.ToSlice(s...))
+	case 18:
+		return readerOfSlice(gogu.UniqueBy(s, f))
+	case 19:
+		h := heap.FromSlice(s, c16Cmp(x))
+		return func() [][]int { return [][]int{h.GetValues()} }
+	case 20:
+		return readerOfSlice(heap.Sort(s, c16Cmp(x)))
+	case 21:
+		return readerOfSlice(gogu.Merge(t, s))
+	case 22:
+		return readerOfSlice(gogu.Difference(t, s))
+	case 23:
+		return readerOfSlice(gogu.Shuffle(s))
+	case 24:
+		return readerSorted(gogu.Duplicate(s)) // built by ranging over a map: compared sorted
+	case 25:
+		return readerOfMap(gogu.DuplicateWithIndex(s))
+	case 26:
+		r, _ := gogu.Flatten[int]([]any{s, []any{t, 5}})
+		return readerOfSlice(r)
+	case 27:
+		r, _ := gogu.Union[int]([]any{s, t})
+		return readerOfSlice(r)
+	case 28:
+		return readerOfSlice(gogu.IntersectionBy(f, s, t))
+	case 29:
+		return readerOfSlice(gogu.DifferenceBy(s, t, f))
+	case 30:
+		r := gogu.GroupBy(s, f)
+		return func() [][]int {
+			ks := make([]int, 0, len(r))
+			for k := range r {
+				ks = append(ks, k)
+			}
+			sort.Ints(ks)
+			out := [][]int{}
+			for _, k := range ks {
+				out = append(out, append([]int{k}, r[k]...))
+			}
+			return out
+		}
+	case 31:
+		return readerOfSlices(gogu.Zip(s, t))
+	case 32:
+		return readerOfSlices(gogu.Unzip(s, t))
+	case 33:
+		return readerOfMap(gogu.FindAll(s, p))
+	case 34:
+		r, _ := gogu.Range(s...)
+		return readerOfSlice(r)
+	case 35:
+		r, _ := gogu.RangeRight(s...)
+		return readerOfSlice(r)
+	case 36:
+		return readerOfMap(gogu.SliceToMap(s, t))
+	case 37:
+		return readerOfSlice(gogu.Without[int, int](t, s...))
+	case 38:
+		return readerOfSlice(gogu.IntersectionBy(f, t, s))
+	case 39:
+		return readerOfSlice(gogu.DifferenceBy(t, s, f))
+	case 40:
+		return readerOfSlice(gogu.Reverse(t))
+	case 41:
+		return readerOfSlice(gogu.Reject(t, p))
+	case 42:
+		return readerOfSlice(gogu.Intersection(t, s))
+	case 43:
+		return readerOfSlices(gogu.Zip(s, s))
+	case 44:
+		r, _ := gogu.Flatten[int]([]any{s, "x"})
+		return readerOfSlice(r)
+	case 45:
+		return readerOfSlice(gogu.Merge(s))
+	case 46:
+		return readerOfSlices(gogu.Unzip(s, s))
+	case 47:
+		return readerOfSlice(gogu.Merge(s, c16Times(x, t)...))
+	case 48:
+		return readerOfSlice(gogu.Intersection(append([][]int{s}, c16Times(x, t)...)...))
+	case 49:
+		return readerOfSlices(gogu.Zip(c16Times(x, s)...))
+	case 50:
+		return scalarReader(gogu.Sum(s))
+	case 51:
+		return scalarReader(gogu.SumBy(s, f))
+	case 52:
+		return scalarReader(gogu.Mean(s))
+	case 53:
+		return scalarReader(gogu.IndexOf(s, y))
+	case 54:
+		return scalarReader(gogu.LastIndexOf(s, y))
+	case 55:
+		gogu.ForEach(s, func(int) {})
+		return constReader()
+	case 56:
+		gogu.ForEachRight(s, func(int) {})
+		return constReader()
+	case 57:
+		return scalarReader(gogu.Reduce(s, func(a, b int) int { return a + b }, 0))
+	case 58:
+		return boolReader(gogu.Every(s, p))
+	case 59:
+		return boolReader(gogu.Some(s, p))
+	case 60:
+		return boolReader(gogu.Contains(s, y))
+	case 61:
+		return scalarReader(gogu.FindIndex(s, p))
+	case 62:
+		return scalarReader(gogu.FindLastIndex(s, p))
+	case 63:
+		return scalarReader(gogu.FindMin(s))
+	case 64:
+		return scalarReader(gogu.FindMinBy(s, f))
+	case 65:
+		return scalarReader(gogu.FindMax(s))
+	case 66:
+		return scalarReader(gogu.FindMaxBy(s, f))
+	case 67:
+		v, err := gogu.Nth(s, y)
+		return scalarReader(v, int(b2i(err != nil)))
+	case 68:
+		return scalarReader(gogu.Min(s...))
+	case 69:
+		return scalarReader(gogu.Max(s...))
+	case 70:
+		return readerOfSlice(gogu.Merge(s, w.lists[x:y]...))
+	case 71:
+		return readerOfSlice(gogu.Intersection(w.lists[x:y]...))
+	case 72:
+		return readerOfSlice(gogu.IntersectionBy(c14VFun(4), w.lists[x:y]...))
+	case 73:
+		return readerOfSlices(gogu.Zip(w.lists[x:y]...))
+	case 74:
+		return readerOfSlices(gogu.Unzip(w.lists[x:y]...))
+	case 75:
+		r, _ := gogu.Flatten[int](w.anys)
+		return readerOfSlice(r)
+	case 76:
+		r, _ := gogu.Union[int](w.anys)
+		return readerOfSlice(r)
+	case 101:
+		return readerSorted(gogu.Keys(m0))
+	case 102:
+		return readerSorted(gogu.Values(m0))
+	case 103:
+		r, err := gogu.Pick(m0, s...)
 		if err != nil {
 			return constReader()
 		}
 		return readerOfMap(r)
-	case 4:
-		return readerOfMap(gogu.PickBy(m0, c14KVPred(c, a)))
-	case 5:
-		return readerOfMap(gogu.FilterMap(m0, c14VPred(c, a)))
-	case 6:
-		return readerOfMap(gogu.Omit(m0, ks...))
-	case 7:
-		return readerOfMap(gogu.OmitBy(m0, c14KVPred(c, a)))
-	case 8:
-		return readerOfMap(gogu.MapValues(m0, c14VFun(c)))
-	case 9:
-		return readerOfMap(gogu.MapKeys(m0, c14KFun(c)))
-	case 10:
+	case 104:
+		return readerOfMap(gogu.PickBy(m0, c14KVPred(x, y)))
+	case 105:
+		return readerOfMap(gogu.FilterMap(m0, p))
+	case 106:
+		return readerOfMap(gogu.Omit(m0, s...))
+	case 107:
+		return readerOfMap(gogu.OmitBy(m0, c14KVPred(x, y)))
+	case 108:
+		return readerOfMap(gogu.MapValues(m0, f))
+	case 109:
+		return readerOfMap(gogu.MapKeys(m0, c14KFun(x)))
+	case 110:
 		return readerOfMap(gogu.Invert(m0))
-	case 11:
-		return readerOfMap(gogu.Find(m0, c14VPred(c, a)))
-	case 12:
-		return constReader([]int{gogu.FindKey(m0, c14VPred(c, a))})
-	case 13:
-		return readerOfMap(gogu.FindByKey(m0, c14VPred(c, a)))
-	case 14:
-		r := gogu.Pluck(coll, a)
-		return func() [][]int { return [][]int{r} }
-	case 15:
+	case 111:
+		return readerOfMap(gogu.Find(m0, p))
+	case 112:
+		return scalarReader(gogu.FindKey(m0, p))
+	case 113:
+		return readerOfMap(gogu.FindByKey(m0, p))
+	case 114:
+		return readerOfSlice(gogu.Pluck(w.coll, y))
+	case 115:
 		return readerOfMap(gogu.MapUnique(m0))
-	case 16:
-		return constReader([]int{int(b2i(gogu.MapEvery(m0, c14VPred(c, a))))})
-	case 17:
-		return constReader([]int{int(b2i(gogu.MapSome(m0, c14VPred(c, a))))})
-	case 18:
-		return constReader([]int{int(b2i(gogu.MapContains(m0, a)))})
-	case 19:
-		return readerOfMap(gogu.SliceToMap(ks, ks))
-	case 20:
-		return readerOfMaps(gogu.FilterMapCollection(coll, c14VPred(c, a)))
-	case 21:
-		r := gogu.Filter2DMapCollection(coll2, c14MPred(c, a))
-		return func() [][]int {
+	case 116:
+		return boolReader(gogu.MapEvery(m0, p))
+	case 117:
+		return boolReader(gogu.MapSome(m0, p))
+	case 118:
+		return boolReader(gogu.MapContains(m0, y))
+	case 119:
+		return readerOfMap(gogu.SliceToMap(s, s))
+	case 120:
+		return readerOfMaps(gogu.FilterMapCollection(w.coll, p))
+	case 121:
+		r := gogu.Filter2DMapCollection(w.coll2, c14MPred(x, y))
+		return func() [][]int { // every returned item as k, code of the inner map (0 = map0, 1 = map1), sorted by k
 			out := [][]int{}
 			for _, item := range r {
 				oks := make([]int, 0, len(item))
@@ -340,158 +479,167 @@ func c16Call1(fn, c, a int, m0 map[int]int, ks []int, coll []map[int]int, coll2 
 					oks = append(oks, k)
 				}
 				sort.Ints(oks)
+				f := []int{}
 				for _, k := range oks {
-					out = append(out, flatOfMap(item[k]))
+					code := -1
+					switch reflect.ValueOf(item[k]).Pointer() {
+					case reflect.ValueOf(w.m0).Pointer():
+						code = 0
+					case reflect.ValueOf(w.m1).Pointer():
+						code = 1
+					}
+					f = append(f, k, code)
 				}
+				out = append(out, f)
 			}
 			return out
 		}
-	case 22:
-		r := gogu.PartitionMap(coll, c14MPred(c, a))
+	case 122:
+		r := gogu.PartitionMap(w.coll, c14MPred(x, y))
 		return readerOfMaps(r[0], r[1])
-	case 23:
-		r := gogu.MapCollection(m0, c14VFun(c))
-		sort.Ints(r)
-		return func() [][]int { return [][]int{r} }
+	case 123:
+		return readerSorted(gogu.MapCollection(m0, f))
+	case 124:
+		v, err := gogu.FindMinByKey(w.coll, y)
+		return scalarReader(v, int(b2i(err != nil)))
+	case 125:
+		v, err := gogu.FindMaxByKey(w.coll, y)
+		return scalarReader(v, int(b2i(err != nil)))
+	case 126:
+		r, err := gogu.Pick(w.m1, t...)
+		if err != nil {
+			return constReader()
+		}
+		return readerOfMap(r)
+	case 127:
+		return readerOfMap(gogu.Omit(w.m1, t...))
 	}
 	return constReader()
 }
 
+func c16MapOf(flat []int) map[int]int {
+	m := map[int]int{}
+	for i := 0; i+1 < len(flat); i += 2 {
+		m[flat[i]] = flat[i+1]
+	}
+	return m
+}
+
 func execC16(in []int64) []int64 {
 	r := &R{w: in}
-	kind := r.Int()
 	out := &W{}
+	pre, spare, es := r.Int(), r.Int(), r.Ints()
+	tpre, tspare, et := r.Int(), r.Int(), r.Ints()
+	f0, f1 := r.Ints(), r.Ints()
+	L, C := r.Ints(), r.Ints()
+	for _, c := range L {
+		if c < 0 || c >= 99 {
+			r.bad = true
+		}
+	}
+	for _, c := range C {
+		if c < 0 || c > 1 {
+			r.bad = true
+		}
+	}
+	const lim = 100000
+	if r.bad || pre < 0 || pre > lim || spare < 0 || spare > lim || tpre < 0 || tpre > lim || tspare < 0 || tspare > lim {
+		return []int64{-999999}
+	}
+	rest := r.Rest()
+	if len(rest)%3 != 0 || len(rest) > 12 {
+		return []int64{-999999}
+	}
+	b0, s := c16Backing(0, pre, es, spare)
+	b1, t := c16Backing(1, tpre, et, tspare)
+	m0, m1 := c16MapOf(f0), c16MapOf(f1)
+	w := c16NewWorld(s, t, m0, m1, L, C)
 	var readers []reader
-	record := func(call func() reader, b0, b1 func() []int) {
+	for i := 0; i+2 < len(rest); i += 3 {
+		fn, x, y := int(rest[i]), int(rest[i+1]), int(rest[i+2])
 		var rd reader
 		status := 0
-		if try(func() { rd = call() }) {
+		if try(func() { rd = c16Call(fn, x, y, w) }) {
 			status, rd = 2, constReader()
 		}
 		out.Int(status)
 		if status == 0 {
 			out.Intss(rd())
 		}
-		out.Ints(b0()).Ints(b1())
+		out.Ints(b0).Ints(b1).Ints(flatOfMap(m0)).Ints(flatOfMap(m1)).Ints(w.printL()).Ints(w.printC()).Ints(w.printC2()).Ints(w.printA())
+		// every earlier result is read AGAIN, now, after this call
 		for _, prev := range readers {
 			out.Intss(prev())
 		}
 		readers = append(readers, rd)
-	}
-	switch kind {
-	case 0:
-		pre, spare, es := r.Int(), r.Int(), r.Ints()
-		tpre, tspare, et := r.Int(), r.Int(), r.Ints()
-		if pre < 0 || pre > 64 || spare < 0 || spare > 64 || tpre < 0 || tpre > 64 || tspare < 0 || tspare > 64 {
-			return []int64{-1}
-		}
-		b0, s := c16Backing(0, pre, es, spare)
-		b1, t := c16Backing(1, tpre, et, tspare)
-		rest := r.Rest()
-		for i := 0; i+2 < len(rest); i += 3 {
-			fn, x, y := int(rest[i]), int(rest[i+1]), int(rest[i+2])
-			record(func() reader { return c16Call0(fn, x, y, s, t) },
-				func() []int { return b0 }, func() []int { return b1 })
-		}
-	case 1:
-		f0, f1, ks := r.Ints(), r.Ints(), r.Ints()
-		m0, m1 := map[int]int{}, map[int]int{}
-		for i := 0; i+1 < len(f0); i += 2 {
-			m0[f0[i]] = f0[i+1]
-		}
-		for i := 0; i+1 < len(f1); i += 2 {
-			m1[f1[i]] = f1[i+1]
-		}
-		coll := []map[int]int{m0, m1, m0}
-		coll2 := []map[int]map[int]int{{0: m0, 1: m1}, {2: m1}}
-		rest := r.Rest()
-		for i := 0; i+2 < len(rest); i += 3 {
-			fn, c, a := int(rest[i]), int(rest[i+1]), int(rest[i+2])
-			record(func() reader { return c16Call1(fn, c, a, m0, ks, coll, coll2) },
-				func() []int { return flatOfMap(m0) }, func() []int { return flatOfMap(m1) })
-		}
-	default:
-		return []int64{-1}
 	}
 	return out.Out()
 }
 
 func describeC16(in []int64) string {
 	r := &R{w: in}
-	kind := r.Int()
 	var sb strings.Builder
-	if kind == 0 {
-		pre, spare, es := r.Int(), r.Int(), r.Ints()
-		tpre, tspare, et := r.Int(), r.Int(), r.Ints()
-		fmt.Fprintf(&sb, "s=%v (pre %d, spare cap %d) t=%v (pre %d, spare %d):", es, pre, spare, et, tpre, tspare)
-		rest := r.Rest()
-		for i := 0; i+2 < len(rest); i += 3 {
-			fmt.Fprintf(&sb, " %s[x=%d,y=%d];", c16Name0(int(rest[i]), int(rest[i+1])), rest[i+1], rest[i+2])
+	pre, spare, es := r.Int(), r.Int(), r.Ints()
+	tpre, tspare, et := r.Int(), r.Int(), r.Ints()
+	f0, f1 := r.Ints(), r.Ints()
+	L, C := r.Ints(), r.Ints()
+	short := func(xs []int) string {
+		if len(xs) > 12 {
+			return fmt.Sprintf("%v...(len %d)", xs[:12], len(xs))
 		}
-	} else {
-		f0, f1, ks := r.Ints(), r.Ints(), r.Ints()
-		fmt.Fprintf(&sb, "map0=%v map1=%v ks=%v:", f0, f1, ks)
-		rest := r.Rest()
-		for i := 0; i+2 < len(rest); i += 3 {
-			fmt.Fprintf(&sb, " %s[c=%d,a=%d];", c14Names[int(rest[i])], rest[i+1], rest[i+2])
-		}
+		return fmt.Sprint(xs)
+	}
+	fmt.Fprintf(&sb, "s=%s (pre %d, spare cap %d) t=%s (pre %d, spare %d) map0=%v map1=%v lists=%s coll=%v:", short(es), pre, spare, short(et), tpre, tspare, f0, f1, short(L), C)
+	rest := r.Rest()
+	for i := 0; i+2 < len(rest); i += 3 {
+		fmt.Fprintf(&sb, " %s[x=%d,y=%d];", c16Name(int(rest[i])), rest[i+1], rest[i+2])
 	}
 	return sb.String()
 }
 
 type c16Cfg struct{ fn, x, y int }
 
-func c16Configs0() []c16Cfg {
-	cs := []c16Cfg{{1, 0, 0}, {2, 7, 0}, {3, 0, 0}, {4, 2, 0}, {4, 0, 0}, {5, 2, 0}, {5, 0, 0}, {5, 4, 1}, {6, 0, 0},
+// call configurations of the slice world (all helpers that take s or t, with parameter variants)
+func c16ConfigsS() []c16Cfg {
+	return []c16Cfg{{1, 0, 0}, {2, 7, 0}, {3, 0, 0}, {4, 2, 0}, {4, 0, 0}, {5, 2, 0}, {5, 0, 0}, {5, 4, 1}, {6, 0, 0},
 		{7, 1, 0}, {7, -1, 0}, {7, 9, 0}, {8, 1, 0}, {8, 2, 0}, {9, 1, 0}, {10, 0, 0}, {11, 0, 0}, {12, 2, 0}, {13, 2, 0},
 		{14, 2, 0}, {15, 0, 0}, {16, 0, 0}, {17, 0, 0}, {18, 4, 0}, {19, 0, 0}, {19, 1, 0}, {20, 0, 0}, {20, 1, 0},
-		{21, 0, 0}, {22, 0, 0}}
-	for k := range c16Scalars {
-		cs = append(cs, c16Cfg{30, k, 1})
-	}
-	for k := range c16Others {
-		cs = append(cs, c16Cfg{40, k, 2})
-	}
-	return cs
+		{21, 0, 0}, {22, 0, 0}, {23, 0, 0}, {24, 0, 0}, {25, 0, 0}, {26, 0, 0}, {27, 0, 0}, {28, 4, 0}, {29, 4, 0},
+		{30, 4, 0}, {31, 0, 0}, {32, 0, 0}, {33, 2, 0}, {34, 0, 0}, {35, 0, 0}, {36, 0, 0}, {37, 0, 0}, {38, 4, 0},
+		{39, 4, 0}, {40, 0, 0}, {41, 2, 0}, {42, 0, 0}, {43, 0, 0}, {44, 0, 0}, {45, 0, 0}, {46, 0, 0}, {47, 3, 0},
+		{48, 2, 0}, {49, 3, 0}, {70, 0, 5}, {70, 1, 3}, {71, 0, 3}, {71, 1, 5}, {72, 0, 5}, {73, 0, 2}, {73, 1, 3}, {74, 0, 2}, {75, 0, 0}, {76, 0, 0},
+		{114, 0, 1}, {120, 2, 0}, {122, 2, 0},
+		{50, 0, 0}, {51, 1, 0}, {52, 0, 0}, {53, 0, 1}, {54, 0, 1}, {55, 0, 0}, {56, 0, 0}, {57, 0, 0}, {58, 2, 0},
+		{59, 2, 0}, {60, 0, 1}, {61, 4, 1}, {62, 4, 1}, {63, 0, 0}, {64, 3, 0}, {65, 0, 0}, {66, 3, 0}, {67, 0, 1},
+		{67, 0, -1}, {68, 0, 0}, {69, 0, 0},
+		{103, 0, 0}, {106, 0, 0}, {119, 0, 0}, {126, 0, 0}, {127, 0, 0}}
 }
 
-func c16Configs1() []c16Cfg {
-	return []c16Cfg{{1, 0, 0}, {2, 0, 0}, {3, 0, 0}, {4, 2, 1}, {4, 4, 0}, {5, 2, 0}, {5, 4, 1}, {6, 0, 0}, {7, 2, 1}, {7, 3, 2},
-		{7, 0, 0}, {8, 1, 0}, {9, 1, 0}, {9, 2, 0}, {10, 0, 0}, {11, 2, 0}, {12, 0, 0}, {13, 4, 1}, {14, 0, 0}, {14, 0, 1},
-		{15, 0, 0}, {16, 2, 0}, {17, 4, 1}, {18, 0, 2}, {19, 0, 0}, {20, 2, 0}, {20, 4, 1}, {21, 2, 0}, {21, 0, 0},
-		{22, 2, 0}, {22, 3, 0}, {22, 5, 0}, {23, 1, 0}}
+// call configurations of the map world (all helpers that take a map; s plays the key list)
+func c16ConfigsM() []c16Cfg {
+	return []c16Cfg{{101, 0, 0}, {102, 0, 0}, {103, 0, 0}, {104, 2, 1}, {104, 4, 0}, {105, 2, 0}, {105, 4, 1}, {106, 0, 0},
+		{107, 2, 1}, {107, 3, 2}, {107, 0, 0}, {108, 1, 0}, {109, 1, 0}, {109, 2, 0}, {110, 0, 0}, {111, 2, 0}, {112, 0, 0},
+		{113, 4, 1}, {114, 0, 0}, {114, 0, 1}, {115, 0, 0}, {116, 2, 0}, {117, 4, 1}, {118, 0, 2}, {119, 0, 0}, {120, 2, 0},
+		{120, 4, 1}, {121, 2, 0}, {121, 0, 0}, {122, 2, 0}, {122, 3, 0}, {122, 5, 0}, {123, 1, 0}, {124, 0, 1}, {125, 0, 1},
+		{126, 0, 0}, {127, 0, 0}, {6, 0, 0}, {10, 0, 0}, {5, 4, 1}}
 }
 
 func genC16(g *Gen) {
-	cfg0, cfg1 := c16Configs0(), c16Configs1()
-	count0 := func(c c16Cfg) {
-		if c.fn >= 30 {
-			g.Count("harness_only:" + c16Name0(c.fn, c.x))
-		} else {
-			g.Count("memory_model:" + c16Name0(c.fn, c.x))
-		}
-	}
-	prog0 := func(pre, spare int, es []int, tpre, tspare int, et []int, calls ...c16Cfg) *W {
-		w := (&W{}).Int(0).Int(pre).Int(spare).Ints(es).Int(tpre).Int(tspare).Ints(et)
+	cfgS, cfgM := c16ConfigsS(), c16ConfigsM()
+	curL, curC := []int{1, 0, 2, 3, 1}, []int{0, 1, 1}
+	prog := func(pre, spare int, es []int, tpre, tspare int, et []int, m0, m1 []int, calls ...c16Cfg) *W {
+		w := (&W{}).Int(pre).Int(spare).Ints(es).Int(tpre).Int(tspare).Ints(et).Ints(m0).Ints(m1).Ints(curL).Ints(curC)
 		for _, c := range calls {
 			w.Int(c.fn).Int(c.x).Int(c.y)
-			count0(c)
-		}
-		return w
-	}
-	mapModelled := map[int]bool{3: true, 5: true, 6: true, 7: true, 8: true, 20: true, 21: true, 22: true}
-	prog1 := func(m0, m1, ks []int, calls ...c16Cfg) *W {
-		w := (&W{}).Int(1).Ints(m0).Ints(m1).Ints(ks)
-		for _, c := range calls {
-			w.Int(c.fn).Int(c.x).Int(c.y)
-			if mapModelled[c.fn] {
-				g.Count("map_memory_model:" + c14Names[c.fn])
+			if c16ValueFree[c.fn] {
+				g.Count("memory_model(value of the result taken from the observation):" + c16Name(c.fn))
 			} else {
-				g.Count("harness_only:" + c14Names[c.fn])
+				g.Count("memory_model:" + c16Name(c.fn))
 			}
 		}
 		return w
 	}
+	M0, M1 := []int{0, 5, 1, 6, 2, 7, 3, 8}, []int{1, 1}
 	// --- exhaustive A: every single call on every slice of length <= 3 (thorough 4) over {0,1,2},
 	//     pre in {0,1}, spare capacity in {0,1,2,3}, three second arguments
 	ts := [][]int{{}, {2}, {1, 0}}
@@ -500,9 +648,12 @@ func genC16(g *Gen) {
 		for pre := 0; pre <= 1; pre++ {
 			for spare := 0; spare <= 3; spare++ {
 				for ti, et := range ts {
-					for _, c := range cfg0 {
+					for _, c := range cfgS {
+						if g.Quick() && c.fn >= 50 && c.fn <= 69 && (pre == 1 || ti > 0) {
+							continue // the scalar-returning helpers take s only: one offset, one t in the quick tier
+						}
 						g.Count(fmt.Sprintf("spare=%d", spare))
-						g.Case("exhaustive", len(esc) >= 1 && spare >= 1, prog0(pre, spare, esc, ti%2, 2-ti, et, c).Out())
+						g.Case("exhaustive", len(esc) >= 1 && spare >= 1, prog(pre, spare, esc, ti%2, 2-ti, et, M0, M1, c).Out())
 					}
 				}
 			}
@@ -514,81 +665,210 @@ func genC16(g *Gen) {
 	if !g.Quick() {
 		alpha = []int{0, 1, 2}
 	}
+	// (quick tier: pairs of the helpers that return a slice or a map or work in place; a scalar-returning helper
+	//  as one of the two is covered by A — both arrays and maps are compared after EVERY call — and by the
+	//  random stream; the thorough tier takes all pairs)
+	cfgB := cfgS
+	if g.Quick() {
+		cfgB = nil
+		seenFn := map[int]bool{}
+		for _, c := range cfgS {
+			if (c.fn < 50 || c.fn > 69) && !seenFn[c.fn] { // one parameter variant per helper
+				cfgB = append(cfgB, c)
+				seenFn[c.fn] = true
+			}
+		}
+	}
 	slicesOver(alpha, 3, func(es []int) {
 		esc := cloneInts(es)
 		for _, sp := range [][2]int{{1, 2}, {0, 0}} {
-			for _, c1 := range cfg0 {
-				for _, c2 := range cfg0 {
-					g.Case("exhaustive", len(esc) >= 1 && sp[1] >= 1, prog0(sp[0], sp[1], esc, 1, 1, []int{2, 1}, c1, c2).Out())
+			if g.Quick() && sp[1] == 0 && len(esc) > 2 {
+				continue // without spare capacity append always reallocates: slices up to length 2 in the quick tier
+			}
+			for _, c1 := range cfgB {
+				for _, c2 := range cfgB {
+					g.Case("exhaustive", len(esc) >= 1 && sp[1] >= 1, prog(sp[0], sp[1], esc, 1, 1, []int{2, 1}, M0, M1, c1, c2).Out())
 				}
 			}
 		}
 	})
-	// --- exhaustive C: map programs: every ordered pair of map-helper calls on every map0 with <= 2 (thorough 3)
-	//     entries over keys 0..2 x values {1,2}
+	// --- exhaustive D: the SAME helper before and after an in-place change of a shared argument (c ; in-place ; c):
+	//     a result that is cached or re-used between two calls of one helper shows only when the second call
+	//     has something else to return
+	inplaceS := []c16Cfg{{5, 2, 0}, {5, 4, 1}, {6, 0, 0}, {19, 1, 0}, {20, 1, 0}, {40, 0, 0}, {41, 2, 0}, {106, 0, 0}, {127, 0, 0}}
+	slicesOver([]int{1, 2}, 3, func(es []int) {
+		esc := cloneInts(es)
+		for _, c := range cfgS {
+			if (c.fn >= 50 && c.fn <= 69) || c.fn == 5 || c.fn == 6 || c.fn == 19 || c.fn == 20 || c.fn == 40 || c.fn == 41 {
+				continue
+			}
+			for _, ip := range inplaceS {
+				g.Case("exhaustive", len(esc) >= 1, prog(1, 2, esc, 1, 1, []int{2, 1}, M0, M1, c, ip, c).Out())
+			}
+		}
+	})
+	// --- exhaustive C: map programs: every single call and ordered pair of map-helper calls on every map0 with <= 2
+	//     (thorough 3) entries over keys 0..2 x values {1,2}; s is the key list (inside a backing array with
+	//     sentinels), t = [0 3] the key list for map1
 	maps := allMaps(3, []int{1, 2}, g.Pick(2, 3))
 	kss := [][]int{{0}, {1, 2}}
 	for _, m0 := range maps {
 		for _, ks := range kss {
-			for _, c1 := range cfg1 {
-				g.Case("exhaustive", len(m0) >= 2, prog1(m0, []int{0, 2, 3, 1}, ks, c1).Out())
-				for _, c2 := range cfg1 {
-					g.Case("exhaustive", len(m0) >= 2, prog1(m0, []int{0, 2, 3, 1}, ks, c1, c2).Out())
+			for _, c1 := range cfgM {
+				g.Case("exhaustive", len(m0) >= 4, prog(1, 1, ks, 0, 1, []int{0, 3}, m0, []int{0, 2, 3, 1}, c1).Out())
+				for _, c2 := range cfgM {
+					g.Case("exhaustive", len(m0) >= 4, prog(1, 1, ks, 0, 1, []int{0, 3}, m0, []int{0, 2, 3, 1}, c1, c2).Out())
+				}
+				for _, ip := range []c16Cfg{{106, 0, 0}, {107, 2, 1}, {107, 3, 2}} { // (c ; Omit/OmitBy ; c)
+					g.Case("exhaustive", len(m0) >= 4, prog(1, 1, ks, 0, 1, []int{0, 3}, m0, []int{0, 2, 3, 1}, c1, ip, c1).Out())
 				}
 			}
 		}
 	}
 	g.Exhaustive("exhaustive")
-	// --- malformed / boundary
-	g.Case("malformed", true, prog0(0, 0, []int{}, 0, 0, []int{}, c16Cfg{8, 0, 0}, c16Cfg{8, -1, 0}).Out())
-	g.Case("malformed", true, prog0(1, 1, []int{1, 2}, 0, 0, []int{}, c16Cfg{8, 0, 0}, c16Cfg{2, 1, 0}, c16Cfg{2, 2, 0}).Out())
-	g.Case("malformed", true, prog1([]int{}, []int{}, []int{}, c16Cfg{3, 0, 0}, c16Cfg{6, 0, 0}).Out())
-	// --- seeded random: programs of 3 calls on longer slices / larger maps
-	nr := g.Pick(4000, 60000)
-	for i := 0; i < nr; i++ {
-		if g.Rng.Intn(4) != 0 {
-			es := randSlice(g.Rng, 9, -3, 6)
-			et := randSlice(g.Rng, 4, -3, 6)
-			calls := make([]c16Cfg, 1+g.Rng.Intn(3))
-			for j := range calls {
-				c := cfg0[g.Rng.Intn(len(cfg0))]
-				switch c.fn {
-				case 2, 7:
-					c.x = g.Rng.Intn(15) - 7
-				case 8:
-					c.x = 1 + g.Rng.Intn(5)
-				case 4, 5, 12, 13, 14:
-					c.x, c.y = g.Rng.Intn(6), g.Rng.Intn(7)-2
-				case 9, 18:
-					c.x = g.Rng.Intn(5)
-				}
-				calls[j] = c
-			}
-			spare := g.Rng.Intn(5)
-			g.Case("random", len(es) >= 1 && spare >= 1 && len(calls) >= 2,
-				prog0(g.Rng.Intn(3), spare, es, g.Rng.Intn(2), g.Rng.Intn(3), et, calls...).Out())
-		} else {
-			rm := func(maxN int) []int {
-				n := g.Rng.Intn(maxN + 1)
-				m := map[int]int{}
-				for len(m) < n {
-					m[g.Rng.Intn(8)] = g.Rng.Intn(5)
-				}
-				return flatOfMap(m)
-			}
-			calls := make([]c16Cfg, 1+g.Rng.Intn(3))
-			for j := range calls {
-				c := cfg1[g.Rng.Intn(len(cfg1))]
-				c.y = g.Rng.Intn(5)
-				calls[j] = c
-			}
-			m0 := rm(6)
-			g.Case("random", len(m0) >= 4 && len(calls) >= 2, prog1(m0, rm(4), randSlice(g.Rng, 3, 0, 7), calls...).Out())
+	// --- large: long arguments, spare capacity below and above what a helper would append (1, len(t), len(s)),
+	//     so that append stays in place in some cases and reallocates in others; many variadic arguments
+	mkLarge := func(n, mod, off int) []int { // fixed pseudo-random contents over mod values (repetitions from the start)
+		s := make([]int, n)
+		x := uint32(off*2654435761 + 12345)
+		for i := range s {
+			x = x*1103515245 + 12345
+			s[i] = int((x>>16)%uint32(mod)) - 1
 		}
+		return s
+	}
+	sizes := []int{33, 64, 65, 129, 257, 1025}
+	heapMax := g.Pick(129, 257)
+	if !g.Quick() {
+		sizes = append(sizes, 2049, 4097)
+	}
+	smallL := curL
+	bigL := make([]int, 70) // 70 slices of different lengths (prefixes of t), not in ascending order
+	for i := range bigL {
+		bigL[i] = 2 + (i*13)%41
+	}
+	windows := [][2]int{{0, 33}, {0, 34}, {0, 40}, {0, 70}, {2, 37}} // 33, 34, 40, 70, 35 variadic slice arguments
+	for _, n := range sizes {
+		es := mkLarge(n, 11, 3)
+		tls := []int{3}
+		if n == 65 || n == 129 || (!g.Quick() && n < 300) {
+			tls = []int{3, 70}
+		}
+		for _, tl := range tls {
+			et := mkLarge(tl, 7, 1)
+			spares := []int{0, 1, tl - 1, tl + 1, n - 1, n + 1, 2*n + 5}
+			if n > 300 || n == 64 {
+				spares = []int{0, 1, tl + 1, n + 1}
+			}
+			for _, spare := range spares {
+				for _, c := range cfgS {
+					if n > 300 && (c.fn == 47 || c.fn == 48 || c.fn == 49) {
+						continue
+					}
+					if (c.fn == 19 || c.fn == 20) && n > heapMax {
+						continue // the model of FromSlice's loop takes ~n^2 steps of cost n each
+					}
+					cc := c
+					switch c.fn {
+					case 47, 48:
+						cc.x = 66 // 66 variadic slice parameters
+					case 49:
+						cc.x = n // Zip of n slices of length n (only run up to 129)
+						if n > 129 {
+							continue
+						}
+					case 70, 71, 72:
+						if c.x != 0 || n > 300 || (spare != 0 && spare != tl+1) {
+							continue
+						}
+						curL = bigL // the caller's [][]int has 70 elements; the helper gets a window of it, spread
+						for _, win := range windows {
+							cc.x, cc.y = win[0], win[1]
+							g.Count(fmt.Sprintf("large:variadic=%d", win[1]-win[0]))
+							g.Case("large", spare >= 1, prog(1, spare, es, 1, spare%5, et, M0, M1, cc).Out())
+						}
+						curL = smallL
+						continue
+					case 7:
+						cc.x = c.x * (n / 3)
+					case 8:
+						cc.x = 1 + c.x*(n/4)
+					}
+					g.Count(fmt.Sprintf("large:len=%d", n))
+					g.Case("large", spare >= 1, prog(1, spare, es, 1, spare%5, et, M0, M1, cc).Out())
+				}
+			}
+		}
+		// pairs of calls at this size: every append-ing / in-place helper followed by another one
+		if n <= 300 {
+			first := []c16Cfg{{1, 0, 0}, {2, 7, 0}, {3, 0, 0}, {45, 0, 0}, {4, 2, 0}, {17, 0, 0}, {12, 2, 0}, {7, 5, 0}, {8, 16, 0}, {26, 0, 0}, {11, 0, 0}, {103, 0, 0}}
+			second := []c16Cfg{{1, 0, 0}, {2, 8, 0}, {3, 0, 0}, {5, 2, 0}, {6, 0, 0}, {20, 0, 0}, {4, 0, 0}, {106, 0, 0}, {41, 2, 0}, {21, 0, 0}}
+			et := mkLarge(5, 7, 1)
+			for _, spare := range []int{0, 6, n + 3}[g.Pick(1, 0):] {
+				for _, c1 := range first {
+					for _, c2 := range second {
+						if c2.fn == 20 && n > heapMax {
+							continue
+						}
+						g.Count(fmt.Sprintf("large:len=%d", n))
+						g.Case("large", spare >= 1, prog(2, spare, es, 0, 3, et, M0, M1, c1, c2).Out())
+					}
+				}
+			}
+		}
+	}
+	// --- malformed / boundary
+	g.Case("malformed", true, prog(0, 0, []int{}, 0, 0, []int{}, []int{}, []int{}, c16Cfg{8, 0, 0}, c16Cfg{8, -1, 0}).Out())
+	g.Case("malformed", true, prog(1, 1, []int{1, 2}, 0, 0, []int{}, []int{}, []int{}, c16Cfg{8, 0, 0}, c16Cfg{2, 1, 0}, c16Cfg{2, 2, 0}).Out())
+	g.Case("malformed", true, prog(0, 0, []int{}, 0, 0, []int{}, []int{}, []int{}, c16Cfg{103, 0, 0}, c16Cfg{106, 0, 0}, c16Cfg{999, 0, 0}).Out())
+	g.Case("malformed", true, prog(0, 0, []int{1}, 0, 0, []int{}, []int{1, 1, 1, 2}, []int{}, c16Cfg{101, 0, 0}, c16Cfg{16, 0, 0}).Out())
+	// --- seeded random: programs of up to 3 calls (any helper) on longer slices / larger maps
+	all := append(append([]c16Cfg{}, cfgS...), cfgM...)
+	nr := g.Pick(5000, 60000)
+	for i := 0; i < nr; i++ {
+		es := randSlice(g.Rng, 9, -3, 6)
+		et := randSlice(g.Rng, 4, -3, 6)
+		rm := func(maxN int) []int {
+			n := g.Rng.Intn(maxN + 1)
+			m := map[int]int{}
+			for len(m) < n {
+				m[g.Rng.Intn(8)] = g.Rng.Intn(5)
+			}
+			return flatOfMap(m)
+		}
+		calls := make([]c16Cfg, 1+g.Rng.Intn(3))
+		for j := range calls {
+			c := all[g.Rng.Intn(len(all))]
+			switch c.fn {
+			case 2, 7:
+				c.x = g.Rng.Intn(15) - 7
+			case 8:
+				c.x = 1 + g.Rng.Intn(5)
+			case 4, 5, 12, 13, 14, 33, 41, 58, 59, 61, 62, 105, 111, 113, 116, 117, 120:
+				c.x, c.y = g.Rng.Intn(6), g.Rng.Intn(7)-2
+			case 9, 18, 28, 29, 30, 38, 39, 51, 64, 66, 108, 123:
+				c.x = g.Rng.Intn(5)
+			case 47, 48:
+				c.x = g.Rng.Intn(4)
+			case 49:
+				c.x = len(es)
+			case 53, 54, 60, 67, 114, 118, 124, 125:
+				c.y = g.Rng.Intn(9) - 3
+			case 104, 107, 121, 122:
+				c.x, c.y = g.Rng.Intn(6), g.Rng.Intn(5)
+			case 109:
+				c.x = g.Rng.Intn(6)
+			}
+			calls[j] = c
+		}
+		spare := g.Rng.Intn(5)
+		m0 := rm(6)
+		g.Case("random", len(es) >= 1 && spare >= 1 && len(calls) >= 2,
+			prog(g.Rng.Intn(3), spare, es, g.Rng.Intn(2), g.Rng.Intn(3), et, m0, rm(4), calls...).Out())
 	}
 }
 
 func init() {
 	register(&Prop{ID: "C16", Exec: execC16, Gen: genC16, Describe: describeC16,
-		Rule: "a case is a program of 1-3 helper calls that share their arguments; slice arguments live inside backing arrays with sentinel cells before the slice and in the spare capacity behind it, and the COMPLETE arrays are recorded after every call, as is every earlier result (re-read). exhaustive A: each of the 66 call configurations (22 memory-modelled helpers incl. parameter variants, 20 scalar-returning and 16 further slice/map-returning helpers run harness_only) alone on every slice of length <= 3 (thorough 4) over {0,1,2} x offset {0,1} x spare capacity {0..3} x 3 second arguments; B: every ORDERED PAIR of the 66 configurations on every slice of length <= 3 over {1,2} (thorough {0,1,2}) with spare capacity 2 and 0; C: every single call and ordered pair of 33 map-helper configurations on every map with <= 2 (thorough 3) entries over keys 0..2 x values {1,2} x 2 key lists; then seeded random programs of up to 3 calls on slices up to length 9 / maps up to 6 entries. non-trivial = (slices) len >= 1 and spare capacity >= 1 [and >= 2 calls in the random stream]; (maps) map0 has >= 2 entries; distinct = distinct wire input"})
+		Rule: "a case is a program of 1-4 helper calls that share their arguments s, t, map0, map1; slice arguments live inside backing arrays with sentinel cells before the slice and in the spare capacity behind it, and the COMPLETE arrays and both maps are recorded after every call, as is every earlier result (re-read after the call). exhaustive A: each of the 96 slice-world call configurations (84 helper codes) alone on every slice of length <= 3 (thorough 4) over {0,1,2} x offset {0,1} x spare capacity {0..3} x 3 second arguments; B: every ORDERED PAIR of these configurations (quick tier: of those that return a slice or map or work in place, one parameter variant each) on every slice of length <= 3 over {1,2} (thorough {0,1,2}) with spare capacity 2 and 0 (quick tier: the no-spare variant up to length 2); D: every triple (c ; in-place helper ; c) of a slice-world configuration c around each of 9 in-place calls on the same slices; C: every single call, ordered pair and triple (c ; Omit/OmitBy ; c) of the 40 map-world configurations on every map0 with <= 2 (thorough 3) entries over keys 0..2 x values {1,2} x 2 key lists (s = the key list, in a backing array); large: every slice-world configuration alone on slices of 33, 64, 65, 129, 257, 1025 (thorough also 2049, 4097) elements with spare capacity {0, 1, len(t)-1, len(t)+1, n-1, n+1, 2n+5} and len(t) = 3 (70 as well for n = 65, 129) (below and above what a helper appends; heap.FromSlice/Sort up to 129, thorough 257), 66 variadic slice parameters built by the call and windows of 33, 34, 35, 40, 70 elements of the caller's own [][]int of 70 slices of differing lengths passed in spread form to Merge / Intersection / IntersectionBy, n-by-n Zip up to 129, and 120 ordered pairs per size (up to 257) and spare capacity {6, n+3} (thorough also 0); then seeded random programs of up to 3 calls of any helper on slices up to length 9 / maps up to 6 entries. non-trivial = len(s) >= 1 and spare capacity >= 1 [and >= 2 calls in the random stream]; (stream C) map0 has >= 2 entries; distinct = distinct wire input"})
 }
